@@ -92,6 +92,35 @@ Definition push_same_ok (l : list ev) (mis : list nat) : bool :=
                     | _ => true
                     end) mis.
 
+(* S6 (retry; "no change left unapplied"): an endpoints operation that wrote a changed file and returned the
+   failed reload leaves that change pending; when the next operation is again an endpoints operation over the
+   same files and returns without error with reloads enabled, nothing may be pending any more -- a successful
+   reload, or (Plus) API calls that all succeeded, at least one.  The pending state is carried from the failed
+   operation (S2 judges each operation from a clean slate, and the retried operation finds the file up to date). *)
+Definition wnames (l : list ev) : list string :=
+  flat_map (fun x => match x with EWrite k n _ => [fkey k n] | _ => [] end) l.
+Fixpoint strs_eqb (a b : list string) : bool :=
+  match a, b with
+  | [], [] => true
+  | x :: a', y :: b' => if String.eqb x y then strs_eqb a' b' else false
+  | _, _ => false
+  end.
+Definition retry_ok (pl : bool) (po : op) (px : oobs) (o : op) (x : oobs) : bool :=
+  let '(pl0, pec, pen) := px in
+  let '(l, ec, en) := x in
+  if is_endp po then if is_endp o then
+    if pen && en && (pec =? 1) && (ec =? 0) && strs_eqb (wnames pl0) (wnames l)
+       && negb (Nat.eqb (List.length (wnames l)) 0) && pend_scan false pl0
+    then negb (pend_scan true l) || (pl && forallb api_ok l && existsb is_api l)
+    else true
+  else true else true.
+Fixpoint retry_from (pl : bool) (ops : list op) (obs : list oobs) (i : Z) : Z :=
+  match ops, obs with
+  | po :: ((o :: _) as ops'), px :: ((x :: _) as obs') =>
+      if retry_ok pl po px o x then retry_from pl ops' obs' (i + 1) else i + 1
+  | _, _ => -1
+  end.
+
 (* coverage of the model run: bit mask of the branches reached *)
 Definition bit (b : bool) (n : Z) : Z := if b then n else 0.
 
@@ -116,10 +145,11 @@ Definition cfg_case (id : Z) (pl : bool) (fxs : fixes) (ops : list op) (rfail af
   let s2 := first_bad2 (applied_ok pl) ops obs 0 in
   let s4 := first_bad failprop_ok obs 0 in
   let s5 := first_bad2 (fun (x : oobs) m => push_same_ok (fst (fst x)) m) obs mis 0 in
+  let s6 := retry_from pl ops obs 0 in
   let '(_, xs) := run e init ops in
   let t := trace xs in
-  [id; b2z (ag =? -1); b2z ((s1 =? -1) && (s2 =? -1) && (s4 =? -1) && (s5 =? -1));
-   b2z (existsb (fun x => is_reload x || is_change x || is_api x) t); cover t ops; ag; s1; s2; s4; s5].
+  [id; b2z (ag =? -1); b2z ((s1 =? -1) && (s2 =? -1) && (s4 =? -1) && (s5 =? -1) && (s6 =? -1));
+   b2z (existsb (fun x => is_reload x || is_change x || is_api x) t); cover t ops; ag; s1; s2; s4; s5; s6].
 
 (* ================= controller family ================= *)
 
